@@ -105,7 +105,12 @@ ReadNormDict(es) == MapS(es, LAMBDA e : [op |-> e.op, args |-> AsOffsets(e.op, e
 
 \* equal up to the integer / offset tag
 SameArgs(a, b) == /\ Len(a) = Len(b)
-                  /\ \A i \in 1 .. Len(a) : IF a[i].t = "r" \/ b[i].t = "r" THEN a[i] = b[i] ELSE a[i].v = b[i].v
+                  /\ \A i \in 1 .. Len(a) : IF a[i].t = "r" \/ b[i].t = "r" THEN a[i].t = b[i].t /\ a[i].v = b[i].v
+                                            ELSE a[i].v = b[i].v
+\* equality of operand lists / entry lists that never compares a number with a nibble string
+\* (TLC raises an error when asked whether 0 = <<255>>)
+ArgsEq(a, b) == Len(a) = Len(b) /\ \A i \in 1 .. Len(a) : a[i].t = b[i].t /\ a[i].v = b[i].v
+EntriesEq(x, y) == Len(x) = Len(y) /\ \A i \in 1 .. Len(x) : x[i].op = y[i].op /\ ArgsEq(x[i].args, y[i].args)
 IsDefault(kind, e) == DictDefault(kind, e.op) # <<>> /\ SameArgs(e.args, DictDefault(kind, e.op))
 \* declared normalisation: entries equal to their defaults are omitted
 NormDict(kind, es) == SelectSeq(es, LAMBDA e : ~IsDefault(kind, e))
@@ -131,9 +136,10 @@ DecDict(bs) == DecDictFrom(bs, 0, <<>>)
 \* a writer may keep a default-valued entry, never invent or reorder entries
 RECURSIVE IsSubSeq(_, _)
 IsSubSeq(a, b) == IF a = <<>> THEN TRUE ELSE IF b = <<>> THEN FALSE
-                  ELSE IF a[1] = b[1] THEN IsSubSeq(Tail(a), Tail(b)) ELSE IsSubSeq(a, Tail(b))
+                  ELSE IF a[1].op = b[1].op /\ ArgsEq(a[1].args, b[1].args) THEN IsSubSeq(Tail(a), Tail(b))
+                  ELSE IsSubSeq(a, Tail(b))
 DictWrittenOk(kind, read, written) ==
-  /\ NormDict(kind, written) = NormDict(kind, read)
+  /\ EntriesEq(NormDict(kind, written), NormDict(kind, read))
   /\ IsSubSeq(written, read)
 
 \* ---- INDEX -------------------------------------------------------------------------
